@@ -81,6 +81,7 @@ Inductive pc :=
 | R_state                                           (* "actor.state": state load *)
 | R_pop (k : nat)                                   (* "actor.pop": Pop of queue k *)
 | R_cb (m : msg) (n : nat)                          (* inside the callback for m, n steps left *)
+| R_call (m : msg) (n : nat)                        (* "call.state": CallPID's isStateRW check *)
 | R_w1 (m : msg) (n : nat)                          (* "wait.cas1": CAS Running->WaitResponse *)
 | R_w2 (m : msg) (n : nat)                          (* "wait.select" *)
 | R_w3 (m : msg) (n : nat)                          (* "wait.cas2": CAS WaitResponse->Running *)
@@ -166,7 +167,7 @@ Definition enter_cb (m : msg) : pc :=
   | BOk n => R_cb m n
   | BErr _ => R_cb m 0
   | BPanic => R_cb m 0
-  | BCall n => R_w1 m n
+  | BCall n => R_call m n
   end.
 
 (* one step of one thread: new shared state, new pc, goroutine spawned by the step *)
@@ -204,6 +205,9 @@ Definition step_pc (s : shared) (p : pc) : option (shared * pc * option pc) :=
       | BErr e => Some (s, R_swapT e, None)
       | BPanic => Some (s, R_swapT rpanic, None)
       end
+  | R_call m n =>
+      (* isStateRW: Running or WaitResponse, else ErrNotAllowed and the callback goes on *)
+      match st s with Running | Wait => Some (s, R_w1 m n, None) | _ => Some (s, R_cb m n, None) end
   | R_w1 m n => if pstate_eqb (st s) Running then Some (upd_st s Wait, R_w2 m n, None) else Some (s, R_cb m n, None)
   | R_w2 m n => Some (s, R_w3 m n, None)
   | R_w3 m n => if pstate_eqb (st s) Wait then Some (upd_st s Running, R_cb m n, None) else Some (s, R_cb m n, None)
@@ -290,7 +294,7 @@ Fixpoint run (sched : list nat) (c : cfg) : cfg :=
 (* a callback of the process is executing *)
 Definition open_cb (p : pc) : bool :=
   match p with
-  | R_cb _ _ | R_w1 _ _ | R_w2 _ _ | R_w3 _ _ | R_term _ | T_term
+  | R_cb _ _ | R_call _ _ | R_w1 _ _ | R_w2 _ _ | R_w3 _ _ | R_term _ | T_term
   | P_cb _ _ | P_link _ _ _ | P_selfcas _ _ | P_selfspawn _ _ => true
   | _ => false
   end.
@@ -298,7 +302,7 @@ Definition open_cb (p : pc) : bool :=
 (* owns the process before its own finalising swap *)
 Definition holder_pre (p : pc) : bool :=
   match p with
-  | S_spawn _ _ | P_spawn | R_start | R_next | R_state | R_pop _ | R_cb _ _ | R_w1 _ _ | R_w2 _ _ | R_w3 _ _
+  | S_spawn _ _ | P_spawn | R_start | R_next | R_state | R_pop _ | R_cb _ _ | R_call _ _ | R_w1 _ _ | R_w2 _ _ | R_w3 _ _
   | R_sleep | R_swapT _ | K_swapT
   | P_init _ _ | P_cb _ _ | P_link _ _ _ | P_selfcas _ _ | P_selfspawn _ _ | P_sleep => true
   | _ => false
